@@ -154,7 +154,7 @@ static void mk_pdi2(struct PDI2* p)
 {
   p->min_seg = nondet_int(); p->max_seg = nondet_int(); p->num_rings = nondet_int();
   p->sampling_corresponds_to_physical_rings = 1; p->ring_diff_arrays_computed = 1;
-  for (int i = 0; i < MAXSEGS; ++i) { p->min_ring_diff[i] = nondet_int(); p->max_ring_diff[i] = nondet_int(); p->ax_pos_num_offset[i] = nondet_int(); }
+  for (int i = 0; i < MAXSEGS; ++i) { p->min_ring_diff[i] = nondet_short(); p->max_ring_diff[i] = nondet_short(); p->ax_pos_num_offset[i] = nondet_short(); }
 }
 /* Lemma (over the contracts of get_segment_axial_pos_num_for_ring_pair and compute_segment_axial_pos_to_ring_pair):
    a ring pair whose ring difference is covered lies in the list of the (segment, axial position) it is mapped to, and in
@@ -170,7 +170,7 @@ void h_lemma_ring_partition(void)
   /* membership in a list is PAIR_BELONGS (postcondition of compute_segment_axial_pos_to_ring_pair, ghost pair = (r1,r2)) */
   __CPROVER_assert(PAIR_BELONGS(&p, seg, ax, r1, r2), "the pair is in the list of its own (segment, axial position)");
   int seg2 = g_s2, ax2 = nondet_int();
-  __CPROVER_assume(SEG_OK(&p, seg2) && ax2 > -10000 && ax2 < 10000 && ax > -10000 && ax < 10000);
+  __CPROVER_assume(SEG_OK(&p, seg2) && ax2 > -50000 && ax2 < 50000);
   __CPROVER_assert(!PAIR_BELONGS(&p, seg2, ax2, r1, r2) || (seg2 == seg && ax2 == ax), "and in the list of no other (segment, axial position)");
 #ifdef LEMMA_CANARY
   __CPROVER_assert(0, "vacuity canary");
